@@ -2188,6 +2188,13 @@ def m_vec(ex, m, args, callee):
         for f in v.fields:
             c = b_or(c, eq_dispatch(ex, f, args[1]))
         return c
+    if k == 'drain':
+        rng = val(args[1])
+        if isinstance(rng, Struct) and rng.name == 'RangeFull':
+            items = list(v.fields)
+            v.fields[:] = []
+            return VecIter(items)
+        raise Unmodelled('Vec::drain with a partial range')
     if k in ('chunks', 'windows', 'chunks_exact'):
         size = ex.concretize_int(args[1], k + ' size')
         if size == 0:
@@ -2251,6 +2258,9 @@ def m_sort(ex, m, args, callee):
 @model(r'^box_assume_init_into_vec_unsafe$|^<impl \[.*\]>::into_vec$|^into_vec$')
 def m_vec_macro(ex, m, args, callee):
     a = val(args[0])
+    # Box<MaybeUninit<[T; N]>> written through its wrapper fields: unwrap single-field shells
+    while isinstance(a, (Tup, Struct)) and len(a.fields) == 1:
+        a = val(a.fields[0])
     if isinstance(a, Arr):
         return a
     raise Unmodelled('vec! macro payload %r' % (a,))
